@@ -278,7 +278,9 @@ class Properties:
                         and (value < 1 or value > 4294967295):
 
                     raise MQTTException(f"{name} property value must be in the range 1-4294967295")
-                elif name in ["RequestResponseInformation", "RequestProblemInformation", "PayloadFormatIndicator"] \
+                elif name in ["RequestResponseInformation", "RequestProblemInformation", "PayloadFormatIndicator",
+                              "MaximumQoS", "RetainAvailable", "WildcardSubscriptionAvailable",
+                              "SubscriptionIdentifierAvailable", "SharedSubscriptionAvailable"] \
                         and (value != 0 and value != 1):
 
                     raise MQTTException(
